@@ -545,7 +545,15 @@ func evidHex(b []byte) string {
 // ---- generators -----------------------------------------------------------
 
 func genIP(rt *rapid.T) []byte {
-	switch rapid.IntRange(0, 3).Draw(rt, "ipKind") {
+	switch rapid.IntRange(0, 4).Draw(rt, "ipKind") {
+	case 4:
+		// near-miss of the IPv4-mapped form: the ::ffff:a.b.c.d prefix with exactly one of its 12
+		// bytes changed is a genuine IPv6 address and must be encoded as one
+		ip := net.IP(rapid.SliceOfN(rapid.Byte(), 4, 4).Draw(rt, "ip4n")).To16()
+		i := rapid.IntRange(0, 11).Draw(rt, "prefixByte")
+		ip[i] ^= byte(rapid.IntRange(1, 255).Draw(rt, "prefixDelta"))
+
+		return ip
 	case 0:
 		return rapid.SliceOfN(rapid.Byte(), 4, 4).Draw(rt, "ip4")
 	case 1:
